@@ -86,6 +86,11 @@ func (x *Exec) mapLen(st *State, m *Term, mt *types.Map) *Term {
 	d := Select(x.mapDom(st, mt), m)
 	c := x.card(d)
 	st.Assume(BVCmp("bvult", c, bv62))
+	// cardinality zero <=> no key present (instance of the finite-set axiom for this domain)
+	ks := x.mapKeySort(mt)
+	q := x.freshBound("k", ks)
+	st.Assume(Eq(Eq(c, BVConstU(0, 64)), &Term{S: fmt.Sprintf("(forall ((%s %s)) (not (select %s %s)))", q.S, ks.String(), d.S, q.S), Sort: SBool}))
+	st.Assume(Implies(Eq(m, IntConstI(0)), Eq(c, BVConstU(0, 64))))
 	return c
 }
 
